@@ -195,10 +195,15 @@ func checkIdentity(m *ir.Module) *identityReport {
 			if !visitPtr(v, path) {
 				return
 			}
-			if seen[v.Pointer()] {
-				return
+			// listed definitions are descended into once (the IR is cyclic through them); everything else
+			// (types, constants, incoming values, cases, inline metadata) hangs off a definition as a tree
+			// and is walked wherever it occurs, so that the dump does not depend on how objects are shared
+			if _, isDef := listed[v.Interface()]; isDef || depth > 40 {
+				if seen[v.Pointer()] {
+					return
+				}
+				seen[v.Pointer()] = true
 			}
-			seen[v.Pointer()] = true
 			if f, ok := v.Interface().(*ir.Func); ok {
 				prev := cur
 				cur = f
